@@ -113,6 +113,59 @@ def deliveredWhenPossible (tr : List Ev) : Bool :=
         | .accept s t e _ ok => !ok || !(decide (max t0 t < e)) || wireCount tr s == 1
         | _ => true
 
+/-! ### no accepted message disappears without cause
+
+An accepted message leaves the client in one of three ways only: a write attempt (successful `wire`, or a failed one
+`deadWrite` / `writeFault`, after which the retry policy decides), or a drop with a stated reason - and the stated reason must be
+true: `expired` only at or after its expiry, `encErr` only for a message that cannot be encoded, `maxRetries` only after a
+write attempt (a frame handed to a transport that is then lost before `drain()` returns counts as a failed attempt).  At the end of a run in which the network finally behaved (`heal` marker) and the client was not closed, every
+message accepted before that marker whose lifetime extends beyond the end of the run has had one of these fates. -/
+
+def failedAttempts (tr : List Ev) (sid : Nat) : Nat :=
+  tr.countP fun
+    | .deadWrite _ s _ => s = sid
+    | .writeFault _ s _ => s = sid
+    | _ => false
+
+def dropsJustified (tr : List Ev) : Bool :=
+  tr.all fun
+    | .qdrop s t why =>
+      match acceptedAt tr s with
+      | some (_, e, _, ok) =>
+        (match why with
+         | .expired => decide (e ≤ t)
+         | .encErr => !ok
+         | .maxRetries => decide (1 ≤ writeAttempts tr s))
+      | none => true
+    | _ => true
+
+def dropped (tr : List Ev) (sid : Nat) : Bool :=
+  tr.any fun
+    | .qdrop s _ _ => s = sid
+    | _ => false
+
+def healTime (tr : List Ev) : Option Nat :=
+  tr.findSome? fun
+    | .heal t => some t
+    | _ => none
+
+def endTime (tr : List Ev) : Nat :=
+  tr.foldl (fun m ev => match ev with
+    | .census t _ _ _ _ => max m t
+    | .wire _ _ t | .deliver _ _ t => max m t
+    | _ => m) 0
+
+def noSilentLoss (tr : List Ev) : Bool :=
+  dropsJustified tr &&
+    (match healTime tr with
+     | none => true
+     | some th =>
+       hasClose tr ||
+         tr.all fun
+           | .accept s t e _ _ =>
+             !(decide (t ≤ th)) || !(decide (endTime tr < e)) || decide (1 ≤ writeAttempts tr s) || dropped tr s
+           | _ => true)
+
 def c01 (tr : List Ev) : Bool :=
   wireOnlySubmitted tr && onceInOrderWithoutFault tr && deliveredWhenPossible tr
 
